@@ -153,6 +153,23 @@ def one_case(ctx, index, rng: random.Random):
     except Exception as e:
         rec.fail(monitor="C15.transform", op=f"{kind}.transform", symptom=f"transform of valid points raised {type(e).__name__}", diff=["raised"], detail={**desc, "error": str(e)[:160]})
         return
+    # very large / very small points (far from overflow of the coordinates themselves): lengths scale, angles stay
+    if rng.random() < 0.3 and n:
+        sc = rng.choice([2.0**600, 2.0**-600])
+        length_ix = {"polar": [0], "radial": [0], "azimuthal": [], "spherical": [0], "spherical_surface": [], "cylindrical": [0, 2], "cylindrical_surface": [1]}[mkind]
+        try:
+            with np.errstate(all="ignore"):
+                t_sc = np.asarray(klass.transform(pts * sc), dtype=float).reshape(n, -1)
+            want = t_all.copy()
+            for j in length_ix:
+                want[:, j] = want[:, j] * sc
+            bad_rows = [i for i in range(n) if not np.allclose(t_sc[i], want[i], rtol=1e-12, atol=1e-12)]
+            if bad_rows:
+                i = bad_rows[0]
+                rec.fail(monitor="C15.transform", op=f"{kind}.transform", symptom="transform of a very large / very small point is not the scaled transform (intermediate overflow / underflow)",
+                         diff=["transform"], detail={"kind": kind, "point": (pts[i] * sc).tolist(), "got": t_sc[i], "expected": want[i], "scale": sc})
+        except Exception as e:
+            rec.fail(monitor="C15.transform", op=f"{kind}.transform", symptom=f"transform of very large / small points raised {type(e).__name__}", diff=["raised"], detail={"error": str(e)[:160]})
     # wrong dimensionality refused
     try:
         bad = np.zeros((2, dim + 2))
@@ -292,6 +309,20 @@ def one_case(ctx, index, rng: random.Random):
             "spherical": {(1, 2): "SphericalSurfaceHistogram", (0,): "RadialHistogram"},
             "cylindrical": {(0,): "RadialHistogram", (1,): "AzimuthalHistogram", (0, 1): "PolarHistogram", (1, 2): "CylindricalSurfaceHistogram"}}.get(kind)
     if cmap:
+        src = a
+        if rng.random() < 0.2:
+            # compact integer contents given directly: bins that fit the type, marginals that do not
+            dt_ = rng.choice(["int16", "int32"])
+            top_ = int(np.iinfo(dt_).max)
+            big_ = np.array([rng.choice([0, 1, top_ // 2, top_ - 1, top_]) for _ in range(int(np.prod(a.shape)))], dtype=dt_).reshape(a.shape)
+            try:
+                with attach.quiet():
+                    src = type(a)([b_.copy() for b_ in a.binnings], big_)
+                desc = {**desc, "contents": dt_}
+            except Exception as e:
+                rec.monitor_error("C15.projection.narrow", e)
+                src = a
+        a_full, a = a, src
         for axes, cname in cmap.items():
             given = [a.axis_names[i] if rng.random() < 0.5 else i for i in axes]
             if rng.random() < 0.5:
@@ -312,6 +343,7 @@ def one_case(ctx, index, rng: random.Random):
                 if cname == "CylindricalSurfaceHistogram":
                     if abs(float(p.radius) - float(bins[0][-1, 1])) > 0:
                         rec.fail(monitor="C15.projection", op=f"{kind}.projection{axes}", symptom="cylinder-surface projection does not carry the outer radius", diff=["radius"], detail={})
+        a = a_full
     rec.case(desc, on_axis and len(finals) >= 3, cls=f"{kind}/{'w' if weighted else 'u'}{'/x:' + xcast if xcast else ''}",
              sample={"kind": kind, "points": pts[:4].tolist(), "paths": sorted(finals), "frequencies": np.asarray(finals["facade"].frequencies).ravel()[:8].tolist()})
 
